@@ -57,7 +57,8 @@ func boundsFor(thorough bool) Bounds {
 		return Bounds{MaxInst: 4, MaxExtIn: 2, MaxExtOut: 2, MaxFanout: 2, RestrictTop: true, TopMaxOut: 1}
 	}
 	// all graphs with <= 2 instances; 3 instances: one external output
-	return Bounds{MaxInst: 3, MaxExtIn: 2, MaxExtOut: 2, MaxFanout: 2, TopMaxOut: 1}
+	// plus every graph of 4 one-input one-output instances
+	return Bounds{MaxInst: 3, MaxExtIn: 2, MaxExtOut: 2, MaxFanout: 2, TopMaxOut: 1, UnaryExtra: 4}
 }
 
 // ---- worker protocol ---------------------------------------------------------------------------------------------
@@ -388,7 +389,7 @@ type failure struct {
 
 func explore(run *vlib.Run, b Bounds, graphs []*Graph) {
 	startT := time.Now()
-	deadline := 105 * time.Second
+	deadline := 150 * time.Second
 	if run.Thorough() {
 		deadline = 18 * time.Minute
 	}
